@@ -156,6 +156,47 @@ Proof.
   - rewrite put_obj_objs, N.eqb_refl. discriminate.
 Qed.
 
+(** GetCommittedState (repaired): the origin value, loaded on first use *)
+Lemma obj_get_origin_spec m a o k :
+  ObjOk m a o ->
+  let '(o1, v) := obj_get_origin m a o k in
+  ObjOk m a o1 /\ nb v = fl_st m a k /\ cur_acct o1 = cur_acct o /\ o_dcode o1 = o_dcode o /\
+  (forall k', obj_st m a o1 k' = obj_st m a o k') /\ (forall k0, kget k0 (o_ost o) <> None -> kget k0 (o_ost o1) <> None).
+Proof.
+  intro Ok. unfold obj_get_origin.
+  destruct (kget k (o_ost o)) as [v|] eqn:Eo.
+  - split; [exact Ok|]. split; [eapply ok_org; eassumption|]. repeat (split; [reflexivity|]). intros k' H; exact H.
+  - cbv zeta. set (v := cached_state m a k).
+    split.
+    { destruct Ok as [H1 H2 H3 H4 H5 H6]. constructor; simpl; try assumption.
+      - intros k' v'. rewrite kget_kput. destruct (bytes_eqb k' k) eqn:E.
+        + apply bytes_eqb_spec in E. subst k'. intro H. inversion H. reflexivity.
+        + apply H2.
+      - intros k' v' Hk. rewrite kget_kput. destruct (bytes_eqb k' k); [discriminate | eapply H3; exact Hk]. }
+    split; [reflexivity|]. split; [reflexivity|]. split; [reflexivity|]. split.
+    + intro k'. unfold obj_st. simpl. destruct (kget k' (o_dst o)); [reflexivity|].
+      rewrite kget_kput. destruct (bytes_eqb k' k) eqn:E; [| reflexivity].
+      apply bytes_eqb_spec in E. subst k'. rewrite Eo. reflexivity.
+    + intros k' H. simpl. rewrite kget_kput. destruct (bytes_eqb k' k); [discriminate | exact H].
+Qed.
+
+Lemma do_getcommitted_spec m a k : Inv m ->
+  let '(m2, x) := do_getcommitted cfg_fixed m a k in
+  exists m1 o v, got_ok m a m1 o /\ same_views m1 m2 /\ s_chg m2 = s_chg m1 /\
+                 x = SVal (committed_out v) /\ nb v = fl_st m a k /\ aget a (s_objs m2) <> None.
+Proof.
+  intro I. unfold do_getcommitted. cbn [d_getcommitted cfg_fixed negb]. pose proof (get_obj_ok m a I) as G.
+  destruct (get_obj m a) as [m1 o]. simpl in G.
+  pose proof (inv_objs m1 (go_inv _ _ _ _ G) a o (go_obj _ _ _ _ G)) as Ok.
+  pose proof (obj_get_origin_spec m1 a o k Ok) as S.
+  destruct (obj_get_origin m1 a o k) as [o1 v].
+  destruct S as [Ok1 [Hv [Hac [Hdc [Hst _]]]]].
+  exists m1, o, v. split; [exact G|]. split; [| split; [reflexivity | split; [reflexivity | split]]].
+  - apply (put_same_obj_views m1 a o o1); try assumption; apply G.
+  - rewrite Hv. apply fl_st_frame; apply G.
+  - rewrite put_obj_objs, N.eqb_refl. discriminate.
+Qed.
+
 (** * writers *)
 Record wrote_st (m m' : st) (a : N) (k : bytes) (b : bytes) : Prop := {
   ws_inv : Inv m';
@@ -419,11 +460,11 @@ Qed.
 Lemma do_setcode_spec m a c : Inv m ->
   let m' := do_setcode e cfg_fixed m a c in
   exists prev m1 o,
-    got_ok m a m1 o /\ (c <> None -> wrote_ac m m' a (with_ch (cur_oacct m a) (e_kec e (nb c))) (nb c)) /\
+    got_ok m a m1 o /\ wrote_ac m m' a (with_ch (cur_oacct m a) (e_kec e (nb c))) (nb c) /\
     s_chg m' = ChCode a prev :: s_chg m1 /\ nb prev = cur_code m a /\
     (prev = None -> cached_code m a = None) /\ aget a (s_objs m') <> None.
 Proof.
-  intro I. unfold do_setcode, chg_append. cbn [d_orphan_changer cfg_fixed andb].
+  intro I. unfold do_setcode, chg_append. cbn [d_orphan_changer d_setcode_nil cfg_fixed andb].
   pose proof (get_obj_ok m a I) as G. destruct (get_obj m a) as [m1 o]. simpl in G.
   pose proof (inv_objs m1 (go_inv _ _ _ _ G) a o (go_obj _ _ _ _ G)) as Ok.
   destruct (obj_code_spec m1 a o Ok) as [Hoc Hnone]. rewrite Hoc.
@@ -432,11 +473,11 @@ Proof.
   assert (Hcm : forall a', cached_code m1 a' = cached_code m a').
   { apply cached_code_frame; apply G. }
   exists (o_dcode o), m1, o. split; [exact G|]. split; [| split; [reflexivity | split; [| split]]].
-  - intro Hne. rewrite Hc.
-    change (wrote_ac m (set_chg (put_obj m1 a (obj_set_code e o c)) (ChCode a (o_dcode o) :: s_chg m1)) a
-                     (with_ch (cur_acct o) (e_kec e (nb c))) (nb c)).
+  - rewrite Hc.
+    change (wrote_ac m (set_chg (put_obj m1 a (obj_set_code e o (Some (nb c)))) (ChCode a (o_dcode o) :: s_chg m1)) a
+                     (with_ch (cur_acct o) (e_kec e (nb (Some (nb c))))) (nb (Some (nb c)))).
     apply wrote_ac_frame_chg. apply (wrote_ac_after_views m m1); [apply (got_ok_same_views m a m1 o G)|].
-    apply write_code_obj; [apply G | apply G | intro H; contradiction].
+    apply write_code_obj; [apply G | apply G | intro H; discriminate].
   - rewrite <- (go_cur_code _ _ _ _ G a). symmetry. apply cur_code_at. apply G.
   - intro H. rewrite <- Hcm. apply Hnone, H.
   - simpl. rewrite aget_aput, N.eqb_refl. discriminate.
@@ -577,13 +618,25 @@ Qed.
 
 Lemma do_setcode_mono m a c : objs_mono m (do_setcode e cfg_fixed m a c).
 Proof.
-  unfold do_setcode, chg_append. cbn [d_orphan_changer cfg_fixed andb].
+  unfold do_setcode, chg_append. cbn [d_orphan_changer d_setcode_nil cfg_fixed andb].
   pose proof (get_obj_got m a) as G. destruct (get_obj m a) as [m1 o]. simpl in G.
   pose proof (obj_code_ost m1 a o) as S. destruct (obj_code m1 a o) as [o1 prev]. simpl in S.
   eapply objs_mono_trans; [eapply got_objs_mono; exact G|].
-  eapply objs_mono_frame; [| apply (objs_mono_put m1 a o (obj_set_code e o1 c));
+  eapply objs_mono_frame; [| apply (objs_mono_put m1 a o (obj_set_code e o1 (Some (nb c))));
                               [eapply got_obj_at; exact G | exact S]].
   reflexivity.
+Qed.
+
+Lemma do_getcommitted_mono m a k : objs_mono m (fst (do_getcommitted cfg_fixed m a k)).
+Proof.
+  unfold do_getcommitted. cbn [d_getcommitted cfg_fixed negb].
+  pose proof (get_obj_got m a) as G. destruct (get_obj m a) as [m1 o]. simpl in G.
+  assert (S : ost_sub o (fst (obj_get_origin m1 a o k))).
+  { unfold obj_get_origin. destruct (kget k (o_ost o)); [intros k' H; exact H|].
+    intros k' H. simpl. rewrite kget_kput. destruct (bytes_eqb k' k); [discriminate | exact H]. }
+  destruct (obj_get_origin m1 a o k) as [o1 v]. simpl in *.
+  eapply objs_mono_trans; [eapply got_objs_mono; exact G|].
+  apply (objs_mono_put m1 a o o1); [eapply got_obj_at; exact G | exact S].
 Qed.
 
 End Block.
